@@ -74,7 +74,7 @@ package check
 //@   ensures[C17] read-only: db == old(db)
 //@   requires wfe(e) && r != nil && ctx != nil
 //@   callsite (*Engine).checkIsAllowed requires[C02] clamp: restDepth == eff(old(restDepth), globalMaxDepth) && 1 <= restDepth && restDepth <= globalMaxDepth
-//@   callsite (*Engine).checkIsAllowed requires[C01] the-request-gets-no-visited-set-here: $arg2 == r && !$arg4 && vset($arg1) == vset(old(ctx))
+//@   callsite (*Engine).checkIsAllowed requires[C01] the-request-runs-on-the-given-visited-set-or-a-new-one: $arg2 == r && !$arg4 && (vset($arg1) == vset(old(ctx)) || vnew($arg1))
 //@   ensures[C03] result-inv: res.Err != nil ==> res.Membership != checkgroup.IsMember
 
 // ---- C01: each function of the engine performs one clause of the relationship-graph
